@@ -175,6 +175,7 @@ class Recorder:
         self.aborted = False
         self.truncated = False
         self.hw_items = 0
+        self.main_stack = None
         self.dropped = 0
         self.step_alloc = 0
         self.extra = 0
@@ -210,9 +211,13 @@ class Recorder:
         class WatchedStack(OrigStack):
             def __init__(self, *a, **k):
                 super().__init__(*a, **k)
-                d = _WatchDeque(self.deque, maxlen=self.deque.maxlen)
-                d.rec = recorder
-                self.deque = d
+                # only the run's own stack is watched: instructions may use scratch Stack objects
+                # (OP_CHECK_TEMPLATE builds one with default limits for the plugin call)
+                if recorder.main_stack is None:
+                    d = _WatchDeque(self.deque, maxlen=self.deque.maxlen)
+                    d.rec = recorder
+                    self.deque = d
+                    recorder.main_stack = self
         F.Stack = WatchedStack
         self.installed = True
 
